@@ -90,6 +90,16 @@ class C19(vlib.Check):
                     a = '61' * first or '.'
                     yield 'ss 3 new,0;app,0,%s;appc,0,98,%d;app,0,7a;trunc,0,3;appc,0,99,%d;del,0 failat=%d@2' % (a, add, 3 * stk, k)
                     yield 'ss 3 new,0;new,1;app,0,%s;app,0,%s;masg,1,0;app,0,79;app,1,78;del,0;del,1 failat=%d@3' % (a, '62' * add, k)
+        # a heap-backed stream that has been emptied / shortened / moved, then a growing append whose allocation fails
+        # (an implementation that releases the old block first "because there is nothing to copy" dangles here)
+        for cap_fill in (stk + 1, 2 * stk + 1, 5 * stk):
+            for shrink in ('trunc,0,0', 'erase,0,%d' % (cap_fill + 5), 'trunc,0,1', 'erase,0,%d' % (cap_fill - 1), 'trunc,0,%d' % stk):
+                for grow in (4 * cap_fill, 16 * stk):
+                    for k in (0, 1):
+                        yield ('ss 3 new,0;appc,0,97,%d;%s;appc,0,98,%d;app,0,7a;trunc,0,2;app,0,79;del,0 failat=%d@3'
+                               % (cap_fill, shrink, grow, k))
+                        yield ('ss 3 new,0;new,1;appc,0,97,%d;%s;masg,1,0;appc,1,98,%d;app,1,7a;app,0,79;del,0;del,1 failat=%d@5'
+                               % (cap_fill, shrink, grow, k))
 
     ALLOC_CONST = ['substr', 'left', 'right', 'upper', 'lower', 'trim', 'plus', 'replace', 'replace_self', 'utf8',
                    'before_first', 'after_last', 'copy']
